@@ -10,7 +10,7 @@ from typing import Any, Dict, List, Optional, Tuple
 
 from . import core, codec
 from .absint import (Budget, CellV, ExcV, Interp, ListV, NONE, OriginV, Seg, Unknown, _Unmodelled)
-from .codec import (INFO, SER, Consts, OriginModel, describe_path, same_or_refuted, sym_in, valid_id_from_guard)
+from .codec import (INFO, SER, Consts, OriginModel, describe_path, same_or_refuted, sym_in, valid_id, valid_id_from_guard)
 from .lin import Lin, Sym, compare
 
 Q = "a5.core.serialization"
@@ -63,6 +63,9 @@ class Setup:
         for r in range(0, self.consts.MAX + 1):
             try:
                 self.ids[r] = valid_id_from_guard(self.interp, r, self.n, self.consts)
+                if self.ids[r] is None:
+                    # the fit check has left the modelled form: use the positions the hierarchy says exist
+                    self.ids[r] = valid_id(self.interp, r, self.n, self.consts)
             except (Budget, _Unmodelled):
                 self.ids[r] = None
         self.ids[-1] = Lin(self.consts.WORLD)
